@@ -182,7 +182,7 @@ def finish_common(flow, run, hits, bad, scen):
     return hits
 
 
-JOB_RE = re.compile(r"(task\d+|pred\d+)\.job = sched\.Enqueue\(ctx, cff\.Job\{\s*Run:\s*(?:task\d+|pred\d+)\.run,\s*(?:Dependencies: \[\]\*cff\.ScheduledJob\{([^}]*)\},\s*)?\}\)")
+JOB_RE = re.compile(r"(task\d+|pred\d+)\.job = sched\.Enqueue\(ctx, \w+\.Job\{\s*Run:\s*(?:task\d+|pred\d+)\.run,\s*(?:Dependencies: \[\]\*\w+\.ScheduledJob\{([^}]*)\},\s*)?\}\)")
 
 
 def parse_job_graph(text, flow):
@@ -245,6 +245,7 @@ def observe(seed, tier):
         gdir = os.path.join(mod, "gen")
         os.makedirs(gdir)
         for name, text in progen.render_package(flows, ntypes).items():
+            os.makedirs(os.path.dirname(os.path.join(gdir, name)), exist_ok=True)
             open(os.path.join(gdir, name), "w").write(text)
         rdir = os.path.join(mod, "cmd", "runner")
         os.makedirs(rdir)
@@ -262,7 +263,7 @@ def observe(seed, tier):
         for fn in sorted(os.listdir(gdir)):
             if fn.endswith("_gen.go"):
                 txt = open(os.path.join(gdir, fn)).read()
-                if re.search(r"\bcff\.(Flow|Parallel)\(", txt):
+                if re.search(r"\b(cff|cffx)\.(Flow|Parallel)\(", txt):
                     hit("C13", "generated file %s still contains a directive call" % fn, {"file": fn})
         rc, o, e = common.run(["go", "vet", "./gen"], cwd=mod, env=common.GOENV, check=False, timeout=900)
         if rc != 0:
